@@ -190,6 +190,29 @@ def main(argv=None):
         with ThreadPoolExecutor(max_workers=max(1, args.jobs)) as ex:
             results = list(ex.map(lambda j: run_job(check_id, j, workdir, timeout), jobs))
         m = merge(results)
+        layer_b = None
+        want_b = getattr(mod, "LAYER_B", None) and not args.replay and (args.tier == "thorough" or os.environ.get("NIXMON_LAYER_B") == "1")
+        if want_b:
+            # Layer B: the same oracles attached to the real functions while the repository's own tests run (DESIGN.md 1.5 / 9.6)
+            from . import passive
+            try:
+                r = passive.run_repo_suite(list(mod.LAYER_B), jobs=max(1, args.jobs))
+            except Exception as exc:
+                r = {"counters": {}, "violations": {}, "errors": [repr(exc)], "workers": 0, "rc": "harness", "tail": ""}
+            for k, v in r["counters"].items():
+                m["counters"]["layerB:" + k] = v
+            for k, v in r["violations"].items():
+                t = m["violations"].setdefault("layerB:" + k, {"count": 0, "witnesses": []})
+                t["count"] += v["count"]
+                t["witnesses"].extend(v["witnesses"][:3])
+            judged = sum(v for k, v in r["counters"].items() if k.endswith("judged"))
+            layer_b = {"monitors": list(mod.LAYER_B), "workload": "the repository's own test-suite (nixio/test) on a scratch copy of the working tree",
+                       "pytest_workers_reporting": r["workers"], "calls_judged": judged, "monitor_errors": r["errors"][:5],
+                       "tests_passed": r["counters"].get("tests_passed"), "tests_failed": r["counters"].get("tests_failed")}
+            if not r["workers"] or not judged:
+                m["inconclusive"].append("Layer B observed nothing (rc=%s): %s" % (r["rc"], r["tail"][-300:]))
+            if r["errors"]:
+                m["inconclusive"].append("Layer B monitor errors: %s" % r["errors"][:2])
         if hasattr(mod, "finish") and not args.replay:
             try:
                 mod.finish(m, args.tier)
@@ -215,7 +238,7 @@ def main(argv=None):
         m["inconclusive"].append("nothing observed (evaluations=%d, distinct=%d)" % (m["evaluations"], len(m["signatures"])))
     verdict = "violated" if new else ("inconclusive" if inconclusive else "held_on_observed")
     if not args.replay and not args.no_evidence:
-        write_evidence(mod, args.tier, seed, m, wall, known, new, verdict)
+        write_evidence(mod, args.tier, seed, m, wall, known, new, verdict, extra={"layer_b": layer_b} if layer_b else None)
     print("%s tier=%s seed=%d evaluations=%d distinct=%d known=%d new=%d wall=%.1fs verdict=%s" % (
         check_id, args.tier, seed, m["evaluations"], len(m["signatures"]), len(known), len(new), wall, verdict))
     if new:
